@@ -9,6 +9,7 @@ import (
 	"os"
 	"strconv"
 	"unicode"
+	"unicode/utf8"
 
 	"golang.org/x/tools/go/ssa"
 
@@ -28,6 +29,11 @@ type peOutcome struct {
 	Emitted []byte // constant bytes appended to the output during the step
 	Raw     bool   // non-constant data appended during the step
 	Why     string
+	// bookkeeping of the pending raw run (only when the loop keeps one: `start`)
+	Flush    bool   // the pending run str[start:i] was appended during the step
+	OtherRaw string // a non-constant append that is not the pending run
+	NewStart string // value of start on re-entering the loop head, as "start+k" / "i+k" / "?"
+	NewI     string // value of the index on re-entering the loop head (index loops)
 }
 
 type peEnv struct {
@@ -35,6 +41,97 @@ type peEnv struct {
 	vals   map[ssa.Value]constant.Value
 	arrays map[*ssa.Alloc]map[int64]constant.Value
 	tables map[string][]constant.Value // global array name -> elements
+	// range mode: the iteration's rune and byte count are known, a decoding of the string at the iteration's own offset
+	// (`utf8.DecodeRuneInString(str[i:])`, i the range key) yields them again
+	rangeKey  ssa.Value
+	rangeStr  ssa.Value
+	rangeRune rune
+	rangeSize int
+	// symbolic offsets: values that are start+k or i+k (start, i: the loop-carried run start and index)
+	sym      map[ssa.Value]symOff
+	iV       ssa.Value
+	startV   ssa.Value
+}
+
+type symOff struct {
+	base string // "start", "i", "" (constant)
+	off  int64
+}
+
+func (o symOff) String() string {
+	if o.base == "" {
+		return fmt.Sprint(o.off)
+	}
+	return fmt.Sprintf("%s+%d", o.base, o.off)
+}
+
+// symEval: v as start+k / i+k / k.
+func (e *peEnv) symEval(v ssa.Value, depth int) (symOff, bool) {
+	if depth > 8 || v == nil {
+		return symOff{}, false
+	}
+	if s, ok := e.sym[v]; ok {
+		return s, true
+	}
+	if e.iV != nil && v == e.iV {
+		return symOff{"i", 0}, true
+	}
+	if e.startV != nil && v == e.startV {
+		return symOff{"start", 0}, true
+	}
+	if c, ok := e.eval(v); ok && c.Kind() == constant.Int {
+		k, _ := constant.Int64Val(c)
+		return symOff{"", k}, true
+	}
+	switch x := v.(type) {
+	case *ssa.BinOp:
+		if x.Op == token.ADD || x.Op == token.SUB {
+			a, ok1 := e.symEval(x.X, depth+1)
+			b, ok2 := e.symEval(x.Y, depth+1)
+			if ok1 && ok2 {
+				if x.Op == token.ADD && (a.base == "" || b.base == "") {
+					base := a.base
+					if base == "" {
+						base = b.base
+					}
+					return symOff{base, a.off + b.off}, true
+				}
+				if x.Op == token.SUB && b.base == "" {
+					return symOff{a.base, a.off - b.off}, true
+				}
+			}
+		}
+	case *ssa.Convert:
+		return e.symEval(x.X, depth+1)
+	case *ssa.ChangeType:
+		return e.symEval(x.X, depth+1)
+	}
+	return symOff{}, false
+}
+
+// atHeader records what the loop-carried values become when the iteration re-enters the head from pred.
+func (e *peEnv) atHeader(hdr, pred *ssa.BasicBlock, out *peOutcome) {
+	for _, in := range hdr.Instrs {
+		ph, ok := in.(*ssa.Phi)
+		if !ok {
+			break
+		}
+		for k, pb := range hdr.Preds {
+			if pb != pred {
+				continue
+			}
+			txt := "?"
+			if s, ok := e.symEval(ph.Edges[k], 0); ok {
+				txt = s.String()
+			}
+			if e.startV != nil && ssa.Value(ph) == e.startV {
+				out.NewStart = txt
+			}
+			if e.iV != nil && ssa.Value(ph) == e.iV {
+				out.NewI = txt
+			}
+		}
+	}
 }
 
 // boolTable reads a package-level `[N]bool{key: value…}` literal.
@@ -187,6 +284,12 @@ func (e *peEnv) eval(v ssa.Value) (constant.Value, bool) {
 		}
 	case *ssa.Call:
 		name := sx.CalleeName(x)
+		if name == "unicode/utf8.RuneLen" {
+			if a, ok := e.eval(x.Call.Args[0]); ok {
+				k, _ := constant.Int64Val(constant.ToInt(a))
+				return constant.MakeInt64(int64(utf8.RuneLen(rune(k)))), true
+			}
+		}
 		if name == "unicode.IsSpace" || name == "unicode.IsPrint" || name == "unicode.IsControl" || name == "unicode.IsGraphic" || name == "strconv.IsPrint" || name == "strconv.IsGraphic" {
 			if a, ok := e.eval(x.Call.Args[0]); ok {
 				k, _ := constant.Int64Val(constant.ToInt(a))
@@ -225,6 +328,8 @@ func (e *peEnv) step(fn *ssa.Function, b *ssa.BasicBlock, idx int, hdr *ssa.Basi
 						if pb == pred {
 							if c, ok := e.eval(x.Edges[k]); ok {
 								e.vals[x] = c
+							} else if sv, ok := e.symEval(x.Edges[k], 0); ok && e.sym != nil {
+								e.sym[x] = sv
 							}
 						}
 					}
@@ -273,6 +378,21 @@ func (e *peEnv) step(fn *ssa.Function, b *ssa.BasicBlock, idx int, hdr *ssa.Basi
 					}
 					out.Raw = true
 					out.Why = "non-constant data appended at " + e.p.Pos(x.Pos())
+					if e.startV != nil {
+						isRun := false
+						if sl, ok := src.(*ssa.Slice); ok && sl.X == e.rangeStr && sl.Low != nil && sl.High != nil {
+							lo, ok1 := e.symEval(sl.Low, 0)
+							hi, ok2 := e.symEval(sl.High, 0)
+							if ok1 && ok2 && lo == (symOff{"start", 0}) && hi == (symOff{"i", 0}) {
+								isRun = true
+							}
+						}
+						if isRun && !out.Flush && len(out.Emitted) == 0 {
+							out.Flush = true
+						} else {
+							out.OtherRaw = "at " + e.p.Pos(x.Pos()) + " the step appends non-constant data that is not the pending run str[start:i] (or appends the run twice, or after the escape)"
+						}
+					}
 				case name == "strconv.AppendQuote":
 					if x.Call.Args[1] == whole {
 						out.Kind = "quote"
@@ -280,6 +400,18 @@ func (e *peEnv) step(fn *ssa.Function, b *ssa.BasicBlock, idx int, hdr *ssa.Basi
 						out.Kind, out.Why = "undecided", "AppendQuote of something else than the whole string"
 					}
 				case name == "unicode/utf8.DecodeRuneInString":
+					if sl, ok := x.Call.Args[0].(*ssa.Slice); ok && e.rangeKey != nil && sl.X == e.rangeStr && sl.Low == e.rangeKey && sl.High == nil && x.Referrers() != nil {
+						for _, u := range *x.Referrers() {
+							if ex, ok := u.(*ssa.Extract); ok {
+								if ex.Index == 0 {
+									e.vals[ex] = constant.MakeInt64(int64(e.rangeRune))
+								} else {
+									e.vals[ex] = constant.MakeInt64(int64(e.rangeSize))
+								}
+							}
+						}
+						continue
+					}
 					out.Kind, out.Why = "undecided", "reached rune decoding with a concrete ASCII byte"
 					return out
 				}
@@ -294,6 +426,7 @@ func (e *peEnv) step(fn *ssa.Function, b *ssa.BasicBlock, idx int, hdr *ssa.Basi
 					if out.Kind == "" {
 						out.Kind = "advance"
 					}
+					e.atHeader(hdr, pred, &out)
 					return out
 				}
 				goto next
@@ -312,6 +445,7 @@ func (e *peEnv) step(fn *ssa.Function, b *ssa.BasicBlock, idx int, hdr *ssa.Basi
 					if out.Kind == "" {
 						out.Kind = "advance"
 					}
+					e.atHeader(hdr, pred, &out)
 					return out
 				}
 				goto next
@@ -364,6 +498,11 @@ type charLoop struct {
 	buf    *ssa.Parameter
 	next   *ssa.Next // `for _, r := range str`: the rune comes from the iterator (invalid bytes arrive as RuneError)
 	okV    ssa.Value
+	keyV   ssa.Value
+	// the loop keeps a pending raw run str[start:i]: startV is the loop-carried start, iV the current offset (the
+	// index phi, or the key of a range loop)
+	startV ssa.Value
+	iV     ssa.Value
 }
 
 func findCharLoop(fn *ssa.Function) (*charLoop, string) {
@@ -424,6 +563,8 @@ func findCharLoop(fn *ssa.Function) (*charLoop, string) {
 					switch e.Index {
 					case 0:
 						cl.okV = e
+					case 1:
+						cl.keyV = e
 					case 2:
 						cl.runeV = e
 					}
@@ -434,8 +575,95 @@ func findCharLoop(fn *ssa.Function) (*charLoop, string) {
 			return nil, "no byte read str[i] and no `range str` loop found"
 		}
 		cl.hdr = cl.next.Block()
+		cl.iV = cl.keyV
+	} else {
+		switch x := cl.byteV.(type) {
+		case *ssa.Index:
+			cl.iV = x.Index
+		case *ssa.Lookup:
+			cl.iV = x.Index
+		}
+		if ph, ok := cl.iV.(*ssa.Phi); !ok || ph.Block() != cl.hdr {
+			cl.iV = nil
+		}
+	}
+	if cl.iV != nil {
+		sx.Instrs(fn, func(in ssa.Instruction) {
+			c, ok := in.(*ssa.Call)
+			if !ok || sx.CalleeName(c) != "builtin.append" || len(c.Call.Args) != 2 {
+				return
+			}
+			sl, ok := c.Call.Args[1].(*ssa.Slice)
+			if !ok || sl.X != ssa.Value(cl.str) || sl.Low == nil || sl.High != cl.iV {
+				return
+			}
+			if ph, ok := sl.Low.(*ssa.Phi); ok && ph.Block() == cl.hdr {
+				cl.startV = ph
+			}
+		})
 	}
 	return cl, ""
+}
+
+// finalFlush: when the loop keeps a pending run, every way out of the function appends the rest str[start:].
+func (cl *charLoop) finalFlush() string {
+	if cl.startV == nil {
+		return ""
+	}
+	body := sx.LoopBody(cl.hdr)
+	cut := sx.Cut{Instrs: map[ssa.Instruction]bool{}}
+	sx.Instrs(cl.fn, func(in ssa.Instruction) {
+		c, ok := in.(*ssa.Call)
+		if !ok || sx.CalleeName(c) != "builtin.append" || len(c.Call.Args) != 2 || body[in.Block()] {
+			return
+		}
+		if sl, ok := c.Call.Args[1].(*ssa.Slice); ok && sl.X == ssa.Value(cl.str) && sl.Low == cl.startV && sl.High == nil && derivesFromBuf(c.Call.Args[0], cl.buf, map[ssa.Value]bool{}) {
+			cut.Instrs[in] = true
+		}
+	})
+	for _, ret := range sx.Returns(cl.fn) {
+		if len(cut.Instrs) == 0 || !sx.MustPass(cl.fn, nil, ret, cut) {
+			return "the function can return without appending the rest of the pending raw run str[start:]: the tail of the string after the last escape is lost"
+		}
+	}
+	return ""
+}
+
+func (cl *charLoop) arm(e *peEnv) {
+	e.rangeStr = cl.str
+	if cl.startV != nil {
+		e.sym = map[ssa.Value]symOff{}
+		e.iV, e.startV = cl.iV, cl.startV
+	}
+}
+
+// bookkeeping checks what a step did to the pending run, for a character of size bytes: a character that is passed
+// through raw leaves start alone; a character that is replaced has the pending run flushed first and start moved
+// just past it; an index loop moves its index past it.
+func (cl *charLoop) bookkeeping(o peOutcome, size int) string {
+	if cl.startV == nil {
+		return ""
+	}
+	if o.OtherRaw != "" {
+		return o.OtherRaw
+	}
+	past := fmt.Sprintf("i+%d", size)
+	if cl.next == nil && o.NewI != past {
+		return fmt.Sprintf("the index moves to %s instead of %s (the character is %d byte(s) long)", o.NewI, past, size)
+	}
+	if len(o.Emitted) == 0 && !o.Flush {
+		if o.NewStart != "start+0" {
+			return "the character is passed through raw but the start of the pending run moves to " + o.NewStart
+		}
+		return ""
+	}
+	if !o.Flush {
+		return "an escape is written without first appending the pending raw run str[start:i]"
+	}
+	if o.NewStart != past {
+		return fmt.Sprintf("after the escape the pending run restarts at %s instead of %s (the replaced character is %d byte(s) long): the bytes in between are copied raw or dropped", o.NewStart, past, size)
+	}
+	return ""
 }
 
 var peDebug = os.Getenv("GLB_PE_DEBUG") != ""
@@ -446,9 +674,10 @@ func (cl *charLoop) evalByte(p *core.Prog, tables map[string][]constant.Value, b
 		cl.fn.WriteTo(os.Stderr)
 	}
 	if cl.next != nil {
-		return cl.evalRange(p, tables, rune(b))
+		return cl.evalRange(p, tables, rune(b), 1)
 	}
 	e := &peEnv{p: p, vals: map[ssa.Value]constant.Value{cl.byteV: constant.MakeInt64(int64(b))}, arrays: map[*ssa.Alloc]map[int64]constant.Value{}, tables: tables}
+	cl.arm(e)
 	blk := cl.byteIn.Block()
 	idx := 0
 	for i, in := range blk.Instrs {
@@ -460,8 +689,10 @@ func (cl *charLoop) evalByte(p *core.Prog, tables map[string][]constant.Value, b
 }
 
 // evalRange: one iteration of `for _, r := range str` with r bound.
-func (cl *charLoop) evalRange(p *core.Prog, tables map[string][]constant.Value, r rune) peOutcome {
+func (cl *charLoop) evalRange(p *core.Prog, tables map[string][]constant.Value, r rune, size int) peOutcome {
 	e := &peEnv{p: p, vals: map[ssa.Value]constant.Value{cl.runeV: constant.MakeInt64(int64(r))}, arrays: map[*ssa.Alloc]map[int64]constant.Value{}, tables: tables}
+	e.rangeKey, e.rangeStr, e.rangeRune, e.rangeSize = cl.keyV, cl.str, r, size
+	cl.arm(e)
 	if cl.okV != nil {
 		e.vals[cl.okV] = constant.MakeBool(true)
 	}
@@ -477,7 +708,7 @@ func (cl *charLoop) evalRange(p *core.Prog, tables map[string][]constant.Value, 
 
 func (cl *charLoop) evalRune(p *core.Prog, tables map[string][]constant.Value, r rune, size int, firstByte byte) peOutcome {
 	if cl.next != nil {
-		return cl.evalRange(p, tables, r)
+		return cl.evalRange(p, tables, r, size)
 	}
 	if cl.decode == nil {
 		return peOutcome{Kind: "undecided", Why: "no rune decoding in the function"}
@@ -489,6 +720,7 @@ func (cl *charLoop) evalRune(p *core.Prog, tables map[string][]constant.Value, r
 	if cl.sizeV != nil {
 		e.vals[cl.sizeV] = constant.MakeInt64(int64(size))
 	}
+	cl.arm(e)
 	blk := cl.decode.Block()
 	idx := 0
 	for i, in := range blk.Instrs {
